@@ -31,6 +31,8 @@ CONSTANTS MaxLines,      \* generated lines in the main part
           MaxFnLines,    \* generated lines per function body
           NFuncs,        \* 0..2 functions
           Vars, Consts, Devs, Ops, Cmps,     \* the alphabet (small sets make the exhaustive configuration finite and small)
+          Pure,          \* TRUE: function bodies are pure (no device access) and are called with constants only: the program
+                         \* is rendered with `@constexpr` in front of every function (C12: the call is replaced by its value)
           Sample         \* TRUE: every choice of an operand / expression is one random element (TLC -simulate draws programs
                          \* without enumerating the thousands of successors of each step); FALSE: all of them (exhaustive)
 
@@ -40,15 +42,18 @@ R(d) == [k |-> "r", v |-> 0, n |-> "", d |-> d]
 Leaves(names) == {C(v) : v \in Consts} \cup {V(n) : n \in names} \cup {R(d) : d \in Devs}
 Bin(op, l, r) == [k |-> "b", op |-> op, l |-> l, r |-> r]
 NoExpr == [k |-> "none"]
-\* expressions of depth <= 1 over the given variable names
-Exprs(names) == {[k |-> "l", e |-> x] : x \in Leaves(names)}
-                \cup {Bin(op, l, r) : op \in Ops \cup Cmps, l \in Leaves(names), r \in Leaves(names)}
+PureLeaves(names) == {C(v) : v \in Consts} \cup {V(n) : n \in names}
+\* expressions of depth <= 1 over a set of leaves
+ExprsL(L) == {[k |-> "l", e |-> x] : x \in L} \cup {Bin(op, l, r) : op \in Ops \cup Cmps, l \in L, r \in L}
+Exprs(names) == ExprsL(Leaves(names))
 \* the same sets, or one random member of each
 Pick(S) == IF Sample THEN {RandomElement(S)} ELSE S
-ExprsP(names) == IF ~Sample THEN Exprs(names)
-                 ELSE LET L == Leaves(names) IN
-                      {IF RandomElement(1..3) = 1 THEN [k |-> "l", e |-> RandomElement(L)]
-                       ELSE Bin(RandomElement(Ops \cup Cmps), RandomElement(L), RandomElement(L))}
+ExprsLP(L) == IF ~Sample THEN ExprsL(L)
+               ELSE {IF RandomElement(1..3) = 1 THEN [k |-> "l", e |-> RandomElement(L)]
+                     ELSE Bin(RandomElement(Ops \cup Cmps), RandomElement(L), RandomElement(L))}
+ExprsP(names) == ExprsLP(Leaves(names))
+\* inside function bodies
+ExprsF(names) == ExprsLP(IF Pure THEN PureLeaves(names) ELSE Leaves(names))
 Conds(names) == {Bin(op, l, r) : op \in Cmps, l \in {V(n) : n \in names}, r \in Leaves(names) \ {R(d) : d \in Devs}}
 
 VARIABLES phase,     \* "fn" | "main" | "done"
@@ -80,7 +85,7 @@ FnVars(i) == {Params(i)[q] : q \in 1..Len(Params(i))}
 FnAdd(e) == /\ phase = "fn" /\ Len(cur) < MaxFnLines /\ (IF e.k = "l" THEN e.e.k # "v" ELSE TRUE)
             /\ cur' = Append(cur, Line(1, "assign", "tl", e, ""))
             /\ UNCHANGED <<phase, lines, open, must, lastif, fns, nloop, stop>>
-FnWrite(e) == /\ phase = "fn" /\ Len(cur) < MaxFnLines
+FnWrite(e) == /\ phase = "fn" /\ ~Pure /\ Len(cur) < MaxFnLines
               /\ cur' = Append(cur, Line(1, "write", "d5", e, ""))
               /\ UNCHANGED <<phase, lines, open, must, lastif, fns, nloop, stop>>
 FnEarly(c, e) == /\ phase = "fn" /\ Len(cur) + 1 < MaxFnLines
@@ -92,8 +97,8 @@ FnReturn(e) == /\ phase = "fn"
                /\ UNCHANGED <<lines, open, must, lastif, nloop, stop>>
 FnStep == LET i == Len(fns) + 1
               names == FnVars(i) \cup (IF \E q \in 1..Len(cur) : cur[q].kind = "assign" THEN {"tl"} ELSE {}) IN
-          \/ \E e \in ExprsP(names) : FnAdd(e) \/ FnWrite(e) \/ FnReturn(e)
-          \/ \E c \in Pick(Conds(FnVars(i))), e \in ExprsP(FnVars(i)) : FnEarly(c, e)
+          \/ \E e \in ExprsF(names) : FnAdd(e) \/ FnWrite(e) \/ FnReturn(e)
+          \/ \E c \in Pick(Conds(FnVars(i))), e \in ExprsF(FnVars(i)) : FnEarly(c, e)
 
 \* ---- the main part ---------------------------------------------------------------------------------------
 Room == Len(lines) < MaxLines /\ ~stop
@@ -131,11 +136,12 @@ Close == /\ phase = "main" /\ Depth > 0 /\ ~must
 Finish == /\ phase = "main" /\ ~must /\ Len(lines) > 0 /\ (Len(lines) >= MinLines \/ Len(lines) + 1 >= MaxLines)
           /\ phase' = "done" /\ open' = <<>> /\ stop' = FALSE /\ UNCHANGED <<lines, must, lastif, fns, cur, nloop>>
 
+ArgLeaves == IF Pure THEN {C(v) : v \in Consts} ELSE Leaves(Names)
 MainStep ==
   \/ Targets # {} /\ \E v \in Pick(Targets), e \in ExprsP(Names) : (IF e.k = "l" THEN e.e.k # "v" ELSE TRUE) /\ Assign(v, e)   \* no bare copies x = y
   \/ Targets # {} /\ \E v \in Pick(Targets), op \in Pick(Ops), x \in Pick(Leaves(Names)) : Aug(v, op, x)
   \/ \E e \in ExprsP(Names) : Write(e)
-  \/ Targets # {} /\ \E v \in Pick(Targets), i \in 1..2 : \E a1 \in Pick(Leaves(Names)), a2 \in Pick(Leaves(Names)) : CallFn(v, i, IF i = 1 THEN <<a1>> ELSE <<a1, a2>>)
+  \/ Targets # {} /\ \E v \in Pick(Targets), i \in 1..2 : \E a1 \in Pick(ArgLeaves), a2 \in Pick(ArgLeaves) : CallFn(v, i, IF i = 1 THEN <<a1>> ELSE <<a1, a2>>)
   \/ \E c \in Pick(Conds(Names)) : OpenIf(c)
   \/ OpenElse
   \/ \E x \in Pick({C(v) : v \in Consts} \cup {V(n) : n \in Vars}) : OpenFor(x)
